@@ -1,4 +1,5 @@
 import OdxVerif.Proofs.CompuSem
+import OdxVerif.Proofs.CompuInterpRange
 /-! # C07 — compu methods compute the mathematically specified conversion
 
     All theorems are about the executable model `OdxVerif/Model/Compu.lean` (which mirrors
@@ -262,6 +263,35 @@ theorem C07_tab_intp_rounds (ity pty : DType) (ipts ppts : List Rat) (v p : Val)
 example : (Method.tabIntp .uint32 .uint32 [0, 10] [0, 5]).i2p (.int 3) = .ok (.int 2) ∧
     (Method.tabIntp .uint32 .uint32 [0, 10] [0, 5]).i2p (.int 7) = .ok (.int 4) ∧
     (Method.tabIntp .uint32 .uint32 [0, 10] [10, 0]).p2i (.int 6) = .ok (.int 4) := by
+  refine ⟨?_, ?_, ?_⟩ <;> decide +kernel
+
+/-- **TAB-INTP image valid** (round 6): in exact arithmetic the image of every valid internal value of a TAB-INTP
+    method with a real physical type is a valid physical value — the interpolated value lies between the two samples
+    it is interpolated from (`lerp_between`), hence inside `[min, max]` of the physical samples (`interp_in_range`).
+    Any table: unsorted, non-monotone, with plateaus.  (The double evaluation of the implementation can miss an
+    extreme sample by rounding noise: known finding `tabintp-extreme-sample-rounding`; the proposed clamp between the
+    two samples is the identity on the exact value.) -/
+theorem C07_tab_intp_image_valid (ity pty : DType) (ipts ppts : List Rat) (hwf : (Method.tabIntp ity pty ipts ppts).WF)
+    (hreal : pty.isInt = false) (v : Val) (hvalid : (Method.tabIntp ity pty ipts ppts).validI v = .ok true) :
+    ∃ p, (Method.tabIntp ity pty ipts ppts).i2p v = .ok p ∧ (Method.tabIntp ity pty ipts ppts).validP p = .ok true := by
+  obtain ⟨hlen, h2, _, hpnum⟩ := hwf
+  simp only [Method.validI] at hvalid
+  cases hx : v.num? with
+  | none => simp [hx] at hvalid
+  | some x =>
+    simp only [hx, Except.ok.injEq, Bool.and_eq_true, decide_eq_true_eq] at hvalid
+    obtain ⟨r, hr⟩ := interp_isSome x ipts ppts hlen h2 hvalid.2.1 hvalid.2.2
+    have hrange := interp_in_range x ipts ppts r hr
+    refine ⟨.flt r, by simp [Method.i2p, hx, hr, mkNum, hreal], ?_⟩
+    have hty : typeOk pty (.flt r) = true := by
+      cases pty <;> simp_all [typeOk, numericType, DType.isInt, DType.isFloat]
+    simp [Method.validP, Val.num?, hty, hrange.1, hrange.2]
+
+/-- the table of the known finding, exactly: `(84 ↦ 17.3), (110 ↦ −0.8)`; the sample point 110 maps to the sample −0.8
+    itself, which is valid and converts back to 110 -/
+example : (Method.tabIntp .uint32 .float64 [84, 110] [173/10, -8/10]).i2p (.int 110) = .ok (.flt (-8/10)) ∧
+    (Method.tabIntp .uint32 .float64 [84, 110] [173/10, -8/10]).validP (.flt (-8/10)) = .ok true ∧
+    (Method.tabIntp .uint32 .float64 [84, 110] [173/10, -8/10]).p2i (.flt (-8/10)) = .ok (.int 110) := by
   refine ⟨?_, ?_, ?_⟩ <;> decide +kernel
 
 /-- **RAT-FUNC forward**: a valid internal value converts to `Σ nₖxᵏ / Σ dₖxᵏ` (denominator 1 when absent),
